@@ -79,10 +79,10 @@ pub fn cases(ctx: &Ctx) -> Vec<Case> {
     }
     // random programs with flushes between calls
     let n = match (k.is_prod(), ctx.quick()) {
-        (false, true) => 800,
-        (false, false) => 20000,
-        (true, true) => 60,
-        (true, false) => 2000,
+        (false, true) => 4000,
+        (false, false) => 60000,
+        (true, true) => 480,
+        (true, false) => 8000,
     };
     let mut sizes = crate::gen::small_sizes();
     sizes.extend([Sz::new(0, 1, -17), Sz::new(0, 1, 0), Sz::new(0, 2, 5)]);
